@@ -17,6 +17,16 @@ DEVS = {
     "lcd": ("{n} = LCD(rs=22, en=23, d4=24, d5=25, d6=26, d7=27)", {}, '{n}.write(0, 0, "hi")'),
     "lcdi2c": ("{n} = LCD(i2c_addr=0x27, cols=16, rows=2)", {}, '{n}.write(0, 0, "hi")'),
 }
+# the same kinds on other pins (for a name that is bound before the loop and re-bound at the top of its body)
+ALT = {
+    "led": ("{n} = Led(16)", {16: "out"}),
+    "rgb": ("{n} = RGBLed(17, 18, 19)", {17: "out", 18: "out", 19: "out"}),
+    "servo": ("{n} = Servo(20)", {}),
+    "motor": ("{n} = DCMotor(32, 33, 34)", {32: "out", 33: "out", 34: "out"}),
+    "button": ("{n} = Button(35)", {35: "inany"}),
+    "pot": ('{n} = Potentiometer("A3")', {17: "inany"}),
+    "ultrasonic": ("{n} = Ultrasonic(trig=36, echo=37)", {36: "out", 37: "in"}),
+}
 HEADER = [
     "from Reduino import target",
     "from Reduino.Actuators import Led, RGBLed, Servo, DCMotor, Buzzer",
@@ -31,7 +41,8 @@ HEADER = [
 
 
 def sid(sc: dict) -> str:
-    return f"{sc['kind']}-{sc['place']}-{sc['use']}-b{sc['nb']}-{'loop' if sc['hasloop'] else 'noloop'}-{sc['other']}"
+    return (f"{sc['kind']}-{sc['place']}-{sc['use']}-b{sc['nb']}-{'loop' if sc['hasloop'] else 'noloop'}-{sc['other']}"
+            + ("-rebind" if sc.get("rebind") else "") + ("-decor" if sc.get("decor") else ""))
 
 
 def render(sc: dict) -> dict:
@@ -57,6 +68,10 @@ def render(sc: dict) -> dict:
         other_ops.append(oop.format(n="dev2"))
     if sc["use"] == "helper":
         L += ["def act():", "    " + op.format(n="dev")]
+    if sc.get("rebind"):
+        adecl, apins = ALT[sc["kind"]]
+        L.append(adecl.format(n="dev"))          # first binding of the name, before the loop, on other pins
+        pins.update(apins)                       # (a button that is re-bound need not be sampled any more: not in `buttons`)
     if sc["place"] == "before":
         L.append(decl.format(n="dev"))
     L.append('mon.write("pre")')
@@ -78,8 +93,25 @@ def render(sc: dict) -> dict:
     motors = []
     if sc["kind"] == "motor" or sc["other"] == "motor":
         motors.append([2, 4, 11])
-    inputs = "".join(f"d {p} 0 1 1 0\n" for p in buttons) + "p 13 580 580 580 580\nx 70\n"
+    inputs = "".join(f"d {p} 0 1 1 0\n" for p in buttons) + "p 13 580 580 580 580\np 37 580 580 580 580\nx 70\n"
+    if sc.get("decor"):
+        L = decorate(L)
     return {"src": "\n".join(L) + "\n", "pins": pins, "buttons": buttons, "motors": motors, "inputs": inputs}
+
+
+def decorate(lines: list) -> list:
+    """Meaning-preserving re-layout: a trailing comment on every block header, a column-0 comment and a deeper comment
+    after every indented line, blank lines - Python's meaning (and so the firmware) must not change."""
+    out = []
+    for ln in lines:
+        body = ln.rstrip()
+        if body.endswith(":") and not body.lstrip().startswith("#"):
+            out.append(body + "  # header comment")
+        else:
+            out.append(ln)
+        if ln.startswith("    "):
+            out += ["# note at column 0", "", "        # deeper note"]
+    return out
 
 
 MODES = {0: "in", 1: "out", 2: "inpu"}
